@@ -911,15 +911,143 @@ func (p *pkgInfo) summarize(T *structT, d *ast.FuncDecl) *summary {
 			s.checkOutside(a.top)
 		} else {
 			s.guard = "Irregular"
-			if s.why == "" {
+			if leaks := p.lockLeaks(T, w.recv, d); len(leaks) > 0 {
+				s.why = "lock released on some but not all return paths: " + strings.Join(leaks, "; ")
+			} else if s.why == "" {
 				s.why = fmt.Sprintf("%s() is not followed by the matching release (defer %s() expected as the next statement)", a.name, want)
 			}
 		}
 	default:
 		s.guard = "Irregular"
-		s.why = "non-standard locking (several acquisitions, acquisition in a nested block or in a defer)"
+		if leaks := p.lockLeaks(T, w.recv, d); len(leaks) > 0 {
+			s.why = "lock released on some but not all return paths: " + strings.Join(leaks, "; ")
+		} else {
+			s.why = "non-standard locking (several acquisitions or releases, acquisition in a nested block or in a defer); every path releases, but not in the acquire;defer-release shape the translator accepts"
+		}
 	}
 	return s
+}
+
+// lockLeaks: path-sensitive scan of a method body for exits that are reached with the instance lock still held
+// (a return, or the end of the function, after an acquisition that no release - explicit on that path, or deferred -
+// matches). Structured control flow only; a loop body is scanned once.
+func (p *pkgInfo) lockLeaks(T *structT, recv string, d *ast.FuncDecl) []string {
+	if d.Body == nil {
+		return nil
+	}
+	lockOp := func(c *ast.CallExpr) string {
+		sel, ok := unparen(c.Fun).(*ast.SelectorExpr)
+		if !ok {
+			return ""
+		}
+		root, names, ok := chain(sel)
+		if !ok || root.Name != recv || recv == "" {
+			return ""
+		}
+		if r := p.resolve(T, names); r.what == "lock" {
+			return r.name
+		}
+		return ""
+	}
+	const unheld, held = 1, 2
+	var leaks []string
+	deferred := false
+	line := func(n ast.Node) int { return p.fset.Position(n.Pos()).Line }
+	var flow func(list []ast.Stmt, st int) (int, bool)
+	var one func(s ast.Stmt, st int) (int, bool)
+	one = func(s ast.Stmt, st int) (int, bool) {
+		switch t := s.(type) {
+		case *ast.ExprStmt:
+			if c, ok := t.X.(*ast.CallExpr); ok {
+				switch lockOp(c) {
+				case "Lock", "RLock":
+					return held, false
+				case "Unlock", "RUnlock":
+					return unheld, false
+				}
+			}
+		case *ast.DeferStmt:
+			if n := lockOp(t.Call); n == "Unlock" || n == "RUnlock" {
+				deferred = true
+			}
+		case *ast.ReturnStmt:
+			if st&held != 0 && !deferred {
+				leaks = append(leaks, fmt.Sprintf("the return at line %d is reached with the lock still held", line(t)))
+			}
+			return st, true
+		case *ast.BlockStmt:
+			return flow(t.List, st)
+		case *ast.IfStmt:
+			if t.Init != nil {
+				st, _ = one(t.Init, st)
+			}
+			a, ta := flow(t.Body.List, st)
+			b, tb := st, false
+			if t.Else != nil {
+				b, tb = one(t.Else, st)
+			}
+			switch {
+			case ta && tb:
+				return st, true
+			case ta:
+				return b, false
+			case tb:
+				return a, false
+			}
+			return a | b, false
+		case *ast.ForStmt:
+			a, _ := flow(t.Body.List, st)
+			return st | a, false
+		case *ast.RangeStmt:
+			a, _ := flow(t.Body.List, st)
+			return st | a, false
+		case *ast.SwitchStmt:
+			out, all, def := 0, true, false
+			for _, c := range t.Body.List {
+				cc := c.(*ast.CaseClause)
+				if cc.List == nil {
+					def = true
+				}
+				a, ta := flow(cc.Body, st)
+				if !ta {
+					out |= a
+					all = false
+				}
+			}
+			if !def {
+				out |= st
+				all = false
+			}
+			return out, all
+		case *ast.TypeSwitchStmt:
+			out := st
+			for _, c := range t.Body.List {
+				a, ta := flow(c.(*ast.CaseClause).Body, st)
+				if !ta {
+					out |= a
+				}
+			}
+			return out, false
+		case *ast.LabeledStmt:
+			return one(t.Stmt, st)
+		}
+		return st, false
+	}
+	flow = func(list []ast.Stmt, st int) (int, bool) {
+		for _, s := range list {
+			var term bool
+			st, term = one(s, st)
+			if term {
+				return st, true
+			}
+		}
+		return st, false
+	}
+	st, term := flow(d.Body.List, unheld)
+	if !term && st&held != 0 && !deferred {
+		leaks = append(leaks, fmt.Sprintf("the end of the function (line %d) is reached with the lock still held", p.fset.Position(d.Body.Rbrace).Line))
+	}
+	return leaks
 }
 
 // checkOutside is refined later (needs the set of mutable fields); here only records the acquire position.
